@@ -318,6 +318,13 @@ def mix_files():
         sn = [seeds.filler(lang, u)] + [seeds.seed(f, lang, u + 1 + i, i) for i, f in enumerate(fams)]
         files[f"mix{lang}{seeds.EXT[lang]}"], _, _ = seeds.compose(lang, sn)
         u += 20
+    # files in places that the linters' own DEFAULT settings treat specially (tests/, examples/): another section's
+    # configuration must not move those defaults either
+    rs = [seeds.filler(RS, 151)] + [seeds.seed(f, RS, 152 + i, i) for i, f in enumerate(("unwrap", "clone", "blocking", "magic"))]
+    files["tests/integration.rs"], _, _ = seeds.compose(RS, rs)
+    files["examples/demo.rs"], _, _ = seeds.compose(RS, [seeds.seed("clone", RS, 161, 0), seeds.seed("blocking", RS, 162, 1)])
+    py = [seeds.seed(f, PY, 171 + i, i) for i, f in enumerate(("magic", "stateless", "print"))]
+    files["tests/test_mix.py"], _, _ = seeds.compose(PY, py)
     files.update(seeds.dry_set(PY, 141, 2))
     files.update(seeds.dry_set(TS, 142, 2))
     files.update(seeds.stringly_set(PY, 143, 2))
@@ -460,6 +467,36 @@ def check_mix(case) -> Case:
     return Case(key=h(["mix", x, y, keysig]), nontrivial=nontrivial, labels=labels, failures=fails)
 
 
+# single documented switches per section (one at a time): the smallest "configuring another linter" there is
+SINGLE_KEYS = {
+    "nesting": [("max_nesting_depth", 1), ("enabled", False)],
+    "srp": [("max_methods", 1), ("check_keywords", False)],
+    "magic-numbers": [("allowed_numbers", []), ("max_small_integer", 1)],
+    "dry": [("min_duplicate_lines", 2), ("storage_mode", "tempfile")],
+    "stringly-typed": [("require_cross_file", False), ("min_occurrences", 4)],
+    "print-statements": [("allow_in_scripts", False)], "improper-logging": [("allow_in_scripts", False)],
+    "method-property": [("max_body_statements", 1)], "stateless-class": [("min_methods", 1)], "collection-pipeline": [("min_continues", 1)],
+    "lbyl": [("detect_isinstance", True), ("detect_dict_key", False)], "lazy-ignores": [("check_noqa", False)], "performance": [("enabled", False)],
+    "unwrap-abuse": [("allow_in_tests", False), ("allow_expect", False)],
+    "clone-abuse": [("allow_in_tests", False), ("detect_clone_in_loop", False)],
+    "blocking-async": [("allow_in_tests", False), ("detect_fs_in_async", False)],
+    "file-header": [("enabled", False)],
+}
+
+
+def single_key_cells():
+    """Command X x ONE switch of ONE other section (no other key in that section: defaults such as ignore lists stay)."""
+    cells = []
+    for x in CMDS:
+        ys = [c for c in CMDS if not (OWN_SECTIONS[c] & OWN_SECTIONS[x])]
+        for sec, kvs in SINGLE_KEYS.items():
+            if sec in OWN_SECTIONS[x]:
+                continue
+            for i, (k, v) in enumerate(kvs):
+                cells.append({"kind": "mix", "x": x, "y": ys[(len(cells)) % len(ys)], "others": {sec: {k: v}}, "underscore": bool((len(cells) + i) % 2)})
+    return cells
+
+
 def mix_cells():
     """Deterministic floor: every command X with every other linter disabled / strongly reconfigured at once, both spellings."""
     cells = []
@@ -498,6 +535,14 @@ def run(ctx):
     mine = ctx.my_cells(mix_cells())
     done = ctx.each(mine, check)
     m["command X x all other sections disabled x key spelling"] = {"cells": len(mine), "done": done}
+    sk = single_key_cells()
+    if ctx.quick:  # a third of the single-switch matrix, rotating with the seed
+        # (sibling linters that share code - the three Rust linters - are always paired with each other)
+        rust = ("unwrap-abuse", "clone-abuse", "blocking-async")
+        sk = [c for i, c in enumerate(sk) if (i + ctx.seed) % 3 == 0 or (c["x"] in rust and next(iter(c["others"])) in rust)]
+    mine = ctx.my_cells(sk)
+    done = ctx.each(mine, check)
+    m["command X x one switch of one other section"] = {"cells": len(mine), "done": done}
     ctx.explore(mix_cases(), check, max_examples=ctx.n(10, 500), salt=15)
     ctx.stats.extra["ownership_table_checked_against_registry"] = True
 
